@@ -1,11 +1,17 @@
 #!/bin/sh
 # usage: confirm_seed.sh <worktree> <example-name>
-# confirms in the scratch worktree: tests pass with the change, demo fails with it and passes without it
+# confirms in the scratch worktree, from _out/patch.diff alone: tests pass with the change, the demo fails with it and
+# passes without it (git stash is shared between worktrees, so the patch is applied / reversed explicitly)
 W="$1"; EX="$2"
 cd "$W" || exit 2
+git checkout -q -- src
+git apply _out/patch.diff || { echo "patch.diff does not apply to HEAD"; exit 2; }
+cp _out/demo.rs examples/$EX.rs 2>/dev/null
 echo "-- tests with change:"; cargo test --offline 2>&1 | grep -E "^test result" | head -3
+cargo build --offline -q 2>/dev/null
 echo "-- demo with change:"; cargo run --offline --quiet --example "$EX" >/dev/null 2>&1; echo "exit=$?"
-git stash push -q -- src
+git apply -R _out/patch.diff
+cargo build --offline -q 2>/dev/null
 echo "-- demo without change:"; cargo run --offline --quiet --example "$EX" >/dev/null 2>&1; echo "exit=$?"
-git stash pop -q
+git apply _out/patch.diff
 git status --short | head -5
